@@ -1,5 +1,3 @@
-//go:build verif && wip
-
 package pure
 
 import (
